@@ -631,7 +631,10 @@ def format_code_correspondence(mods, wd: Path, tier: str, seed: int, part: str =
         res["disagreements"].append({"kind": "correspondence", "kernel": "K7 stage set of format_code",
                                      "detail": f"format_code calls stage(s) unknown to DriverModel: {unknown}"})
     res["samples"] = [{"input": s["input"], "safe": s["safe"], "keep": s["keep"], "n_states": s["n"],
-                       "impl_out": o["out"], "impl_trace_len": len(o["trace"]), "impl_preserve": o["pres"]}
+                       "valid": s["valid"], "non_identity_stage_tables": {k: v for k, v in s["tables"].items() if v != ident(s["n"])},
+                       "impl_out": o["out"], "impl_trace_len": len(o["trace"]),
+                       "impl_trace (500 = one full pass of _multi_run_fixes)": compress_trace(o["trace"], env.multi_codes),
+                       "impl_preserve": o["pres"]}
                       for s, o in (items[:1] + items[len(items) // 2:len(items) // 2 + 1] + items[-1:])]
     res["env"] = env
     res["wall_s"] = round(time.time() - t0, 1)
@@ -660,6 +663,22 @@ def ws_normalise(s: str) -> str:
     """reference for 'handed back with at most whitespace normalisation': the non-whitespace
     characters in order"""
     return "".join(s.split())
+
+
+def really_invalid(src: str) -> bool:
+    """invalid as given AND as an indented fragment (after tab expansion, trailing-blank removal and
+    dedent) -- the inputs the property says are handed back with whitespace normalisation only"""
+    import ast as _ast
+
+    def ok(t):
+        try:
+            _ast.parse(t)
+            return True
+        except (SyntaxError, ValueError):
+            return False
+    t = src.expandtabs(4)
+    t2 = "\n".join(line.rstrip() for line in t.split("\n"))
+    return not (ok(src) or ok(_textwrap.dedent(t)) or ok(_textwrap.dedent(t2)))
 
 
 def early_return_check(mods) -> list[dict]:
@@ -865,7 +884,7 @@ def files_case_to_coq(case, obs) -> str:
             f"{glist(obs['passes'], gnl)} {gbool(obs['result'])})")
 
 
-def guard_cases(mods, tier: str):
+def guard_cases(mods, tier: str, only_all_valid: bool = False):
     """fault injection into processing.fix / chain / pattern-substitution style fix(max_iter=1):
     the rule proposes a whole-text replacement, is_valid_python and the string restoration are
     scripted; exhaustive over candidate tables 3->3 x validity masks x restore behaviours."""
@@ -902,7 +921,11 @@ def guard_cases(mods, tier: str):
                 if j != i:
                     yield (core.Range(0, len(source)), texts[j])
             for valid in itertools.product((False, True), repeat=3):
+                if only_all_valid and not all(valid):
+                    continue
                 for rname, rt in restores.items():
+                    if only_all_valid and rname != "id":
+                        continue
                     script.update(valid=valid, restore=rt)
                     for start in range(3):
                         for which, mi in (("fix1", 1), ("fix", tb["FIX_MAX_ITER"]), ("chain", tb["CHAIN_MAX_ITER"])):
@@ -919,6 +942,20 @@ def guard_cases(mods, tier: str):
                                 g = 88
                             items.append({"cand": list(cand), "valid": list(valid), "restore": rt, "rname": rname,
                                           "max_iter": mi, "which": which, "start": start, "got": g})
+                        if rname == "id":
+                            # processing._replace_nodes: same guard, no restoration (guarded_once)
+                            import ast as _ast
+                            try:
+                                tree = _ast.parse(texts[start])
+                                node = tree.body[0].value
+                                j = cand[start]
+                                with common.quiet():
+                                    got = processing._replace_nodes(texts[start], {node: _ast.Name(id=texts[j].strip())})
+                                g = texts.index(got) if got in texts else 77
+                            except Exception as e:  # noqa
+                                g = 88
+                            items.append({"cand": list(cand), "valid": list(valid), "restore": rt, "rname": rname,
+                                          "max_iter": 1, "which": "_replace_nodes", "start": start, "got": g})
     finally:
         core.is_valid_python, processing._substitute_original_strings, processing._substitute_original_fstrings = saved
     return items
